@@ -12,7 +12,7 @@ from mdmc.refs import url_ref
 
 ID = "C10"
 TITLE = "Reported network indicators are well-formed and normalised"
-STREAM_FAMS = ["net", "mix", "winpath", "kw"]
+STREAM_FAMS = ["net", "mix", "winpath", "kw", "ctx"]
 DOMAIN_CHARS = set(b"abcdefghijklmnopqrstuvwxyzABCDEFGHIJKLMNOPQRSTUVWXYZ0123456789-.")
 
 OCTETS = [b"0", b"1", b"01", b"255", b"256", b"0x1", b"1e1", b"10", b"192", b"001", b"99"]
@@ -178,7 +178,7 @@ def run_unit(unit, rec):
             rec.violation("C10.tld-table", "tld-table-shape", {"kind": "tld-table"}, f"TOP_LEVEL_DOMAINS has {len(TOP_LEVEL_DOMAINS)} entries, malformed: {bad[:5]}", 1)
         rec.sample({"tld_table_entries": len(TOP_LEVEL_DOMAINS)})
     elif kind == "stream":
-        streams.run_unit(unit[1], rec, stream_monitor)
+        streams.run_unit(unit[1], rec, stream_monitor, repeat=2)
 
 
 def replay(w, rec):
